@@ -639,6 +639,7 @@ func runC11(c *kc.Ctx) {
 	flush()
 	c11Rabin(c, rng.Fork("rabin"))
 	c11Protocol(c, rng.Fork("protocol"))
+	c11PacketBinding(c, rng.Fork("packets"))
 	_ = sort.Ints
 }
 
